@@ -365,7 +365,25 @@ def sh_mul_const_assign(rng, big):
     return d
 
 
+def sh_noise(rng, big):
+    return {"rank": rng.range(1, 2), "size": rng.range(2, 6), "b2k": rng.choice(RADICES), "rdnum": rng.range(1, 2), "grin": rng.range(1, 2),
+            "col": rng.range(0, 2)}
+
+
+def sh_pack(rng, big):
+    r = rng.range(1, 2)
+    d = key_part(rng, big, r, r)
+    d.update({"rank": r, "size": rng.range(1, 6), "b2k": rng.choice([x for x in RADICES if x != d["kb2k"]]) if rng.chance(1, 3) else d["kb2k"]})
+    return d
+
+
 OPS.update({
+    "glwe_noise": (sh_glwe, ALL, True, 2),
+    "gglwe_noise": (sh_noise, ALL, True, 2),
+    "ggsw_noise": (sh_noise, ALL, True, 2),
+    "glwe_tensor_decrypt": (sh_noise, ALL, True, 2),
+    "glwe_pack": (sh_pack, ALL, True, 8),
+    "glwe_packer_add": (sh_pack, ALL, True, 8),
     "glwe_secret_tensor_prepare": (sh_rank, ALL, True, 2),
     "glwe_switching_key_encrypt_sk": (sh_key(None, None), ALL, True, 2),
     "glwe_automorphism_key_encrypt_sk": (sh_key("same", None), ALL, True, 2),
@@ -399,7 +417,7 @@ OPS.update({
     "glwe_mul_const_assign": (sh_mul_const_assign, ALL, True, 2),
 })
 
-USES_VMP = {o for o in OPS if o.startswith("vmp_") or any(w in o for w in ("keyswitch", "external_product", "automorphism", "trace", "cmux", "bdd", "from_lwe", "from_glwe", "ggsw_from", "expand"))}
+USES_VMP = {o for o in OPS if o.startswith("vmp_") or any(w in o for w in ("keyswitch", "external_product", "automorphism", "trace", "cmux", "bdd", "from_lwe", "from_glwe", "ggsw_from", "expand", "pack"))}
 
 
 AUTO_FUSED = ["glwe_automorphism_add", "glwe_automorphism_sub", "glwe_automorphism_sub_negate"]
@@ -513,6 +531,10 @@ def run(ctx):
             # two thirds of the shapes at N >= 8, the rest at N < 8 (sub-64-byte limbs)
             n = r.choice([x for x in ns if x >= 8]) if i % 3 != 2 else r.choice([x for x in ns if x < 8] or ns)
             shape = gen(r, False)
+            if op == "glwe_pack":
+                logn = n.bit_length() - 1
+                shape["gap"] = r.range(0, logn)
+                shape["rounds"] = logn - shape["gap"]
             if i < len(bes):                          # boundary class: single-limb operands, once per back end
                 lo = 2 if "rdnum" in shape else 1      # matrix operands need size > dsize
                 for f in ("size", "asize", "pksize", "bsize", "lsize", "alsize"):
